@@ -38,7 +38,7 @@ SpecChecks(c) == [j \in 1..Len(c.checks) |->
                     [name |-> K_chk, status |-> IF c.checks[j].fail = 0 THEN Y!K_SUCCESS ELSE Y!K_FAILURE,
                      hasMsg |-> c.checks[j].fail # 0, msg |-> TitleSeq(c.checks[j].fail)]]
 (* the delivered exchange n: transport data from the driver's objects, check results and response presence from the machine *)
-X(n) == [checks |-> SpecChecks(cassette[n]), hasResp |-> cassette[n].resp,
+X(n) == [checks |-> SpecChecks(cassette[n]), checksExact |-> TRUE, hasResp |-> cassette[n].resp,
          covDesc |-> [has |-> cassette[n].meta = "coverage", v |-> XPool[T.exch[n]].covDesc.v]] @@ XPool[T.exch[n]]
 
 StatDiffs == IF k >= 1 /\ k <= Len(T.events) /\ k <= Len(T.snaps)
